@@ -415,6 +415,7 @@ def run(rep, ctx):
     rule_R1(rep, funcs)
     rule_H1(rep, repo)
     rule_H2(rep, repo)
+    rule_K2(rep, repo)
     return rep
 
 
@@ -1532,3 +1533,60 @@ def rule_H2(rep, repo):
         ok = len(calls) == 1 and len(gen) == 1 and ("isVCC.first", True) in nfacts(g, calls[0]) and ("isVCC.first", False) in nfacts(g, gen[0]) and \
             [nt(render(a)) for a in call_args(calls[0])][:2] == ["isVCC.second.first", "isVCC.second.second"]
         h2.check(ok, "dispatch|" + g.name, short_loc(g.loc), "%s: var==const comparisons use the (var, const) map, all others the structural map" % g.name)
+
+
+def rule_K2(rep, repo):
+    k2 = rep.rule("C01.K2", "TABLE", "fractional right-hand sides of comparisons with an integer body are rounded in the direction that keeps the integer solutions; de-normalised comparisons are negated with the sense reversed", floor=12)
+    d = export(U, fn=[r"mp::ConstraintPreprocessors::PreprocessConstraint"], repo=repo)
+    F = Facts([d])
+    funcs = [f for f in F.funcs if not f.is_dependent() and f.cfg is not None]
+    WANT = {1: "ceil", -1: "floor", 2: "floor", -2: "ceil"}      # x >= 2.5 <=> x >= 3;  x <= 2.5 <=> x <= 2;  x > 2.5 <=> x > 2;  x < 2.5 <=> x < 3
+    n = 0
+    for f in sorted(funcs, key=lambda g: g.full):
+        t = (f.params[0].get("ct") or "") if f.params else ""
+        m = re.search(r"ConditionalConstraint<mp::AlgebraicConstraint<mp::(LinTerms|QuadAndLinTerms), mp::AlgConRhs<(-?[12])>>>", t)
+        if not m:
+            continue
+        body, kind = m.group(1), int(m.group(2))
+        n += 1
+        live = []
+        for c in f.walk():
+            if c["k"] == "CXXMemberCallExpr" and (c.get("callee") or "").endswith("::set_rhs"):
+                ok = True
+                guards = []
+                for cid, pol in f.cfg.facts_at(c):
+                    cn = f.nodes[cid]
+                    v = cv(cn)
+                    if v is not None:
+                        if bool(v) != pol:
+                            ok = False
+                    else:
+                        guards.append((nt(render(cn)), pol))
+                if ok and f.cfg.position(c) is not None:
+                    live.append((c, guards))
+        key = "round|%s|kind %d" % (body, kind)
+        if len(live) != 1:
+            k2.fail(key, short_loc(f.loc), "kind %d: %d live set_rhs calls" % (kind, len(live)))
+            continue
+        c, guards = live[0]
+        a = strip(call_args(c)[0])
+        fn = (a.get("callee") or "").split("::")[-1] if a["k"] == "CallExpr" else "?"
+        arg_ok = a["k"] == "CallExpr" and nt(render(call_args(a)[0])) == "rhs"
+        inits = {v["name"]: nt(render(kids(v)[0])) for v in f.walk() if v["k"] == "VarDecl" and kids(v)}
+        gl = nfacts(f, c)
+        g_ok = any("INTEGER" in t_ and "get_result_type()" in t_ and p for t_, p in gl) and any(t_ in ("floor(rhs)!=ceil(rhs)", "ceil(rhs)!=floor(rhs)") and p for t_, p in gl) and \
+            inits.get("rhs") == "algc.rhs()" and "ComputeBoundsAndType(algc.GetBody())" in inits.get("bnt_body", "") and nt(render(call_object(c))) == "algc"
+        k2.check(fn == WANT[kind] and arg_ok and g_ok, key, short_loc(c.get("l")),
+                 "kind %d (%s): fractional rhs replaced by %s(rhs) when the body is integer valued" % (kind, {-2: "<", -1: "<=", 1: ">=", 2: ">"}[kind], WANT[kind]),
+                 "kind %d (%s): a fractional rhs is replaced by %s(rhs)%s; the integer solutions of the comparison are those of %s(rhs)" %
+                 (kind, {-2: "<", -1: "<=", 1: ">=", 2: ">"}[kind], fn, "" if g_ok else " (guards: %s)" % gl, WANT[kind]))
+        # de-normalised: negate and reverse the sense
+        ar = [x for x in f.walk() if x["k"] == "CXXMemberCallExpr" and (x.get("callee") or "").split("::")[-1] == "AssignResultVar2Args"]
+        okn = len(ar) == 1 and ("AlgConRhs<%d>" % (-kind)) in (ar[0].get("calleeFull") or "")
+        if okn:
+            ng = [x for x in f.walk() if x["k"] == "CXXMemberCallExpr" and (x.get("callee") or "").endswith("::negate") and nt(render(call_object(x))) == "arg1"]
+            okn = len(ng) == 1 and f.cfg.before(ng[0], ar[0]) and inits.get("arg1") == "algc" and ("IsNormalized(cc)", False) in nfacts(f, ar[0]) and \
+                "arg1.GetBody()" in nt(render(ar[0])) and "arg1.rhs()" in nt(render(ar[0]))
+        k2.check(okn, "negate|%s|kind %d" % (body, kind), short_loc(f.loc), "a comparison with a negative leading coefficient is replaced by the negated body with sense %d" % -kind)
+    if n < 8:
+        raise AnalysisBroken("C01.K2: only %d conditional comparison preprocessors" % n)
